@@ -288,7 +288,11 @@ func SubscribeWithReplay[T any](
 	}
 
 	// Load last offset for this subscription
-	lastOffset, _ := subStore.LoadOffset(ctx, subscriptionID)
+	lastOffset, loadErr := subStore.LoadOffset(ctx, subscriptionID)
+	if loadErr != nil {
+		// Replaying from the beginning would redeliver events already handled
+		return fmt.Errorf("load subscription offset: %w", loadErr)
+	}
 
 	// Replay missed events
 	var eventType = reflect.TypeOf((*T)(nil)).Elem()
